@@ -1,0 +1,40 @@
+//! Verification hooks, compiled only with `--cfg probminhash_verif`.
+//!
+//! Read-only access to crate-private state for external conformance harnesses.
+//! Nothing in this module changes the behaviour of the library.
+
+use crate::maxvaluetrack::MaxValueTracker;
+
+/// Public wrapper around the crate-private `MaxValueTracker<f64>`.
+pub struct VerifMaxTracker {
+    inner: MaxValueTracker<f64>,
+    m: usize,
+}
+
+impl VerifMaxTracker {
+    pub fn new(m: usize) -> Self {
+        VerifMaxTracker {
+            inner: MaxValueTracker::new(m),
+            m,
+        }
+    }
+    pub fn update(&mut self, k: usize, value: f64) {
+        self.inner.update(k, value)
+    }
+    pub fn get_max_value(&self) -> f64 {
+        self.inner.get_max_value()
+    }
+    /// value at any node of the implicit tree (0..2m-2), leaves are 0..m-1
+    pub fn get_value(&self, slot: usize) -> f64 {
+        self.inner.get_value(slot)
+    }
+    pub fn is_update_possible(&self, value: f64) -> bool {
+        self.inner.is_update_possible(value)
+    }
+    pub fn reset(&mut self) {
+        self.inner.reset()
+    }
+    pub fn nb_slots(&self) -> usize {
+        self.m
+    }
+}
